@@ -9,6 +9,9 @@ ASSUMPTIONS = shellprops.ASSUMPTIONS
 
 def run(ctx, res):
     shellprops.explore(ctx, res, PID)
+    # init requests (one, several, none) that are readable while start() is still running
+    shellprops.start_races(ctx, res, PID, 320 if ctx.tier == 'quick' else 6000)
+    res.rule += '; plus start() on a scheduled thread with the first requests already readable, line-granular preemption (oracle only)'
 
 
 def search(ctx, res):
